@@ -46,12 +46,12 @@ def to_case(c):
     hist = []
     for h in c["hist"]:
         if h[0] in ("open", "change"):
-            hist.append("NSet %d %d" % (h[1] % len(c["docs"]), h[2]))
+            hist.append("(true, %d, %d)" % (h[1] % len(c["docs"]), h[2]))
         elif h[0] == "close":
-            hist.append("NClose %d" % (h[1] % len(c["docs"])))
+            hist.append("(false, %d, 0)" % (h[1] % len(c["docs"])))
     for i, o in enumerate(c["obs"]):
         obs.append("(%d, (%s, %s))" % (i, coq_opt(o["open"]), coq_opt(o["analysed"])))
-    return "{| c_disk := %s; c_hist := %s; c_obs := %s |}" % (coq_list(disk), coq_list(hist), coq_list(obs))
+    return "{| n_disk := %s; n_hist := %s; n_obs := %s |}" % (coq_list(disk), coq_list(hist), coq_list(obs))
 
 
 def run(ck, binpath, mode, n):
@@ -84,8 +84,8 @@ def main(argv):
     if bins:
         if ok or os.path.exists(os.path.join(COQ, "theories/C29/Corr.vo")):
             cases = [c for c in run(ck, bins["c29"], "corr", ck.scale(5, 60)) if "obs" in c]
-            failing = ck.coq_failing("corr", [to_case(c) for c in cases], ["Coq.Lists.List", "EV.C29.Model", "EV.C29.Corr"],
-                                     prelude="Import ListNotations. Local Close Scope N_scope. Local Open Scope nat_scope.")
+            failing = ck.coq_failing("corr", [to_case(c) for c in cases], ["Coq.Lists.List", "Coq.NArith.NArith", "EV.C29.Model", "EV.C29.Corr"], check_fn="check_caseN", case_type="caseN",
+                                     prelude="Import ListNotations.")
             for i in failing or []:
                 ck.tie_broken("model/implementation disagreement at quiescence (C29)", json.dumps(cases[i])[:3000])
             for c in cases:
